@@ -82,14 +82,14 @@ impl Rect {
     r.left >= self.left && r.top >= self.top && r.right <= self.right && r.bottom <= self.bottom
   }
 
-  /// Returns the width of the rectangle.
+  /// Returns the width of the rectangle (zero for a degenerate rectangle whose right edge lies left of its left edge).
   pub fn width(&self) -> usize {
-    self.right - self.left
+    self.right.saturating_sub(self.left)
   }
 
-  /// Returns the height of the rectangle.
+  /// Returns the height of the rectangle (zero for a degenerate rectangle whose bottom edge lies above its top edge).
   pub fn height(&self) -> usize {
-    self.bottom - self.top
+    self.bottom.saturating_sub(self.top)
   }
 }
 
